@@ -17,8 +17,24 @@ from .snakes import compute_snakes_multilevel, compute_diff_from_snakes
 __all__ = ["diff"]
 
 
+def strict_equal(x, y):
+    """Equality that keeps bool, int and float apart, as JSON does.
+
+    Python's == equates True, 1 and 1.0 (also inside containers), so a change
+    of value type was not diffed.
+    """
+    if isinstance(x, dict) and isinstance(y, dict):
+        return x.keys() == y.keys() and all(strict_equal(v, y[k]) for k, v in x.items())
+    if isinstance(x, list) and isinstance(y, list):
+        return len(x) == len(y) and all(strict_equal(a, b) for a, b in zip(x, y))
+    if (isinstance(x, (bool, int, float)) and isinstance(y, (bool, int, float))
+            and type(x) is not type(y)):
+        return False
+    return x == y
+
+
 def default_predicates():
-    return defaultdict(lambda: (operator.__eq__,))
+    return defaultdict(lambda: (strict_equal,))
 
 
 def default_differs():
@@ -249,7 +265,7 @@ def diff_dicts(a, b, path="", config=None):
                 raise RuntimeError(
                     "Found predicate(s) for path {} pointing to dict entry.".format(
                         path or '/'))
-            if avalue != bvalue:
+            if not strict_equal(avalue, bvalue):
                 di.replace(key, bvalue)
 
     for key in sorted(bkeys - akeys):
